@@ -229,14 +229,22 @@ def gen_loop(rng, tier):
             yield c
 
 
+from .. import c18_wake as W
+
 PROP = Prop(
     pid="C18",
     props_v="theories/Props/C18.v",
-    theory_files=["theories/Queue/Threads.v", "theories/Queue/ThreadsCorr.v", "theories/Queue/ThreadsProofs.v"],
+    theory_files=["theories/Queue/Threads.v", "theories/Queue/ThreadsCorr.v", "theories/Queue/ThreadsProofs.v",
+                  "theories/Queue/Wakeup.v", "theories/Queue/WakeupProofs.v"],
     streams=[Stream(name="loop", imports=["Queue.PQ", "Queue.PosPQ", "Queue.Threads", "Queue.ThreadsCorr"],
                     run="threads_run", input_type="list (Z * Q) * top * nat * (Z * Q)",
                     gen=gen_loop, impl=impl_loop, to_coq=to_coq_loop, oracle=oracle, nontrivial=nontrivial,
                     corr_name="priority loop: call_soon_threadsafe during a queue operation = sequential history"),
+             Stream(name="wake", imports=["Queue.Wakeup"], run="wake_run", input_type="winput",
+                    gen=W.gen, impl=W.impl, to_coq=W.to_coq, oracle=W.oracle, nontrivial=W.nontrivial,
+                    shrink=W.shrink,
+                    corr_name="call_soon_threadsafe wake-up protocol, line by line against the loop thread "
+                              "(Queue/Wakeup.v)"),
              Stream(name="strike", imports=["Queue.PQ", "Queue.PosPQ", "Queue.Threads", "Queue.ThreadsCorr"],
                     run="threads_run", input_type="list (Z * Q) * top * nat * (Z * Q)",
                     gen=gen, impl=impl, to_coq=to_coq, oracle=oracle_class, nontrivial=nontrivial,
@@ -244,7 +252,10 @@ PROP = Prop(
     rule="every loop-thread operation in {popleft, append, find+remove, reschedule, iteration} on queues of 1..8 "
          "(thorough: 1..16) entries x every index k of a PriEntry.__lt__ evaluation inside the operation (and beyond: "
          "then the append happens after it) x a foreign append of priority in {0, -2, 3} performed by a real second "
-         "thread during that evaluation; non-trivial: >= 2 entries",
+         "thread during that evaluation; non-trivial: >= 2 entries.  Stream `wake`: 1..3 real foreign threads "
+         "single-stepped line by line through call_soon_threadsafe against the loop thread single-stepped through "
+         "{drain, select+run} (enumerated: one complete submission at every loop phase x the second submission "
+         "stopped after every line x 0..5 loop steps; both submissions interleaved line-wise; random schedules)",
     signature=signature,
     assumptions=["thread switches inside heapq's C functions can only happen inside the Python-level PriEntry.__lt__ "
                  "(CPython holds the GIL otherwise); deque.append/popleft are atomic under the GIL (scheduling loops)",
